@@ -686,8 +686,9 @@ pub fn run(mut cx: Ctx) -> ! {
     cx.rule = "responses built through the public API over every modelled status code x header lists (incl. all 256 Set-Cookie attribute combinations and 33/40-field sets) x bodies are serialised, checked against the RFC 7230 grammar and parsed back; wire responses for every status x {Content-Length, chunked in every composition of bodies <= 6 bytes, both hex cases} are parsed under every read plan; the real Client follows every redirect chain of length <= 3 (4) over {301,302,307} x {relative, absolute} against a scripted server on 127.0.0.1:80; states = distinct responses/chains, transitions = serialise/parse/exchange calls; non-trivial = cases with headers, all wire responses, chains with >= 1 redirect".into();
     let mut st = Stats::default();
     status_table(&mut st);
-    serialise_family(&mut st, cx.quick());
-    parser_family(&mut st, cx.quick());
+    // the deeper serialisation family costs a few seconds: both tiers run it
+    serialise_family(&mut st, false);
+    parser_family(&mut st, false);
     client_family(&mut cx, &mut st);
     cx.assume("the client section runs over real loopback TCP (the client is not routed through the facade); read segmentation there is whatever the kernel does for whole and byte-by-byte server writes, the exhaustive segmentation plans are applied to the parser directly");
     cx.assume("Set-Cookie attribute order is compared as a set");
